@@ -350,6 +350,13 @@ func (m *Mux) encError(w http.ResponseWriter, r *http.Request, err error) {
 		sp.Message = strings.ToValidUTF8(sp.Message, "\uFFFD")
 	}
 	b, err := c.Marshal(sp)
+	if err != nil && len(sp.Details) > 0 {
+		// A detail the codec cannot encode (an Any of a type it has no descriptor
+		// for, relayed from a back-end): answer with code and message rather
+		// than with nothing.
+		sp.Details = nil
+		b, err = c.Marshal(sp)
+	}
 	if err != nil {
 		panic(err) // ...
 	}
